@@ -578,6 +578,61 @@ proof fn lemma_c03_upto(b1: Seq<u8>, b2: Seq<u8>, sts: Seq<int>, k: int, c: Opti
         assert(b1.subrange(0, 20 + st) =~= b2.subrange(0, 20 + st));
     }
 }
+
+// ---------------------------------------------------------------- the option builders (context.rs): each option sets exactly its own flag
+//@item! stun_rs :: mod context > struct DecoderContextBuilder
+impl DecoderContextBuilder {
+//@item stun_rs :: mod context > impl DecoderContextBuilder > fn with_key
+//@tags C18 C19 C04
+//@rules R5
+//@spec
+    ensures r.0.key == Some(key), r.0.validation == self.0.validation, r.0.unknown_data == self.0.unknown_data, r.0.not_ignore == self.0.not_ignore,
+//@end
+//@item stun_rs :: mod context > impl DecoderContextBuilder > fn with_validation
+//@tags C18 C19
+//@rules R5
+//@spec
+    ensures r.0.validation, r.0.key == self.0.key, r.0.unknown_data == self.0.unknown_data, r.0.not_ignore == self.0.not_ignore,
+//@end
+//@item stun_rs :: mod context > impl DecoderContextBuilder > fn with_unknown_data
+//@tags C18 C19
+//@rules R5
+//@spec
+    ensures r.0.unknown_data, r.0.key == self.0.key, r.0.validation == self.0.validation, r.0.not_ignore == self.0.not_ignore,
+//@end
+//@item stun_rs :: mod context > impl DecoderContextBuilder > fn not_ignore
+//@tags C18 C19 C09
+//@rules R5
+//@spec
+    ensures r.0.not_ignore, r.0.key == self.0.key, r.0.validation == self.0.validation, r.0.unknown_data == self.0.unknown_data,
+//@end
+//@item stun_rs :: mod context > impl DecoderContextBuilder > fn build
+//@tags C18 C19
+//@spec
+    ensures r == self.0,
+//@end
+}
+//@item! stun_rs :: mod context > struct MessageDecoderBuilder
+impl MessageDecoderBuilder {
+//@item stun_rs :: mod context > impl MessageDecoderBuilder > fn with_context
+//@tags C18 C19
+//@rules R5
+//@spec
+    ensures r.0.ctx == Some(ctx),
+//@end
+//@item stun_rs :: mod context > impl MessageDecoderBuilder > fn build
+//@tags C18 C19
+//@spec
+    ensures r == self.0,
+//@end
+}
+impl MessageDecoder {
+//@item stun_rs :: mod context > impl MessageDecoder > fn get_context
+//@tags C18 C19
+//@spec
+    ensures r is Some <==> self.ctx is Some, r is Some ==> *r->Some_0 == self.ctx->Some_0,
+//@end
+}
 proof fn vx_sentinel() ensures false {}
 } // verus!
 fn main() {}
